@@ -22,7 +22,8 @@ CHECKS = {
                 'never descends under a binder without the capture check of that binder sort; a metavariable is replaced only after its '
                 'constraint lists were checked with the judgement of the same name; axiom constants equal the schemas; judgement arms are '
                 'sound. Validity in finite models is not evaluated - that quantifier is out of reach of a static argument; what is decided '
-                'is every code-level way the induction can fail. (S3b) the structural arms of apply_esubst / apply_ssubst (leaves, connectives, binders: shadowing and capture) are the textbook substitution; a refusal where the table substitutes is accepted (rejecting more is sound), the deferral arms are left to C05 / C11.',
+                'is every code-level way the induction can fail. (S3b) the structural arms of apply_esubst / apply_ssubst (leaves, connectives, binders: shadowing and capture) are the textbook substitution; a refusal where the table substitutes is accepted (rejecting more is sound), the deferral arms are left to C05 / C11.'
+                ' The MetaVar arm of apply_esubst / apply_ssubst may drop a pending substitution only where the variable of that sort is declared fresh (sound direction; keeping it pending is always accepted).',
         'note': 'Trusted: soundness of the matching-logic proof system and the induction; spec tables sa/spec/{axioms,machine,judgements,'
                 'substitution}.py; rustc MIR as rendering of lib.rs. Level "other": necessary structural obligations, not a semantic proof.',
         'design_ref': 'DESIGN.md section 3, C01',
@@ -49,7 +50,8 @@ CHECKS = {
                 'constructor field or rule premise, side conditions of MP and Generalization, id/plug pairing of Instantiate) are the same '
                 'in the Serializing/Stateful/Basic interpreter chain and in the arm of execute_instructions; claims are consumed LIFO iff '
                 'published reversed; axiom schemas agree three-way; phases run in order over one interpreter. Necessary conditions only: '
-                'that a concrete module is accepted is an execution and is not decided. Also: the memoiser\'s slot budget is 256 - len(memory) with one slot per suggestion (one-byte Load operand); generator and checker compute Instantiate / resolved substitutions by the same textbook table (C11\'s Python half and C05\'s Rust half). Whenever the generator\'s freshness judgement says fresh the documented one does too, per constructor (judgement-agreement); the substitution table has ONE column for both languages (capture checks, shadowing, identity on a metavariable declared fresh): two genuine disagreements were repaired (9148c8c, 44ab5e8), the missing set-variable capture check of the generator\'s Mu arms is a known finding.',
+                'that a concrete module is accepted is an execution and is not decided. Also: the memoiser\'s slot budget is 256 - len(memory) with one slot per suggestion (one-byte Load operand); generator and checker compute Instantiate / resolved substitutions by the same textbook table (C11\'s Python half and C05\'s Rust half). Whenever the generator\'s freshness judgement says fresh the documented one does too, per constructor (judgement-agreement); the substitution table has ONE column for both languages (capture checks, shadowing, identity on a metavariable declared fresh): two genuine disagreements were repaired (9148c8c, 44ab5e8), the missing set-variable capture check of the generator\'s Mu arms is a known finding.'
+                ' The checker\'s four judgements and well_formed agree with the documented ones arm by arm (shared with C05): a stricter judgement refuses generated modules.',
         'note': 'Trusted: python ast, rustc MIR, spec/axioms.py. Symbols are identified with their serializer numbers (injectivity: C03).',
         'design_ref': 'DESIGN.md section 3, C02',
     },
@@ -60,7 +62,8 @@ CHECKS = {
                 'equals the effect of the opcode written for it, per phase for Publish; phase changes reset the same state on both sides; '
                 'memory grows at the same events; the Load operand is memory.index of the term handed to the tracker; -len(x) slices are '
                 'guarded. Four genuine deviations of publish_* are recorded as known findings (the pinned suite asserts them). '
-                'Equality of tracked and real state on concrete traces is not observed. publish_proof compares the conclusion with the HEAD of the claim list and drops exactly it (claim-queue); the generator\'s freshness judgement implies the documented one (shared with C02).',
+                'Equality of tracked and real state on concrete traces is not observed. publish_proof compares the conclusion with the HEAD of the claim list and drops exactly it (claim-queue); the generator\'s freshness judgement implies the documented one (shared with C02).'
+                ' arity-enforced: operands are never compared with the tracked stack through zip (truncation accepts a short stack). The two substitution tables are composed (the tracker computes Instantiate results with the generator\'s substitution).',
         'note': 'Trusted: python ast, rustc MIR. Known findings in known_findings.json (publish_* leave the term on the tracked stack; claims not queued).',
         'design_ref': 'DESIGN.md section 3, C04',
     },
@@ -86,7 +89,8 @@ CHECKS = {
                 'the typing gives it: position i maps to the i-th pattern and only an argument structurally equal to MetaVar(i) is '
                 'dropped; the resolution front-end folds trivial-clause proofs in the nesting of the conjunction it advertises. '
                 'The pinned suite replays eight sample proofs; a lemma wrong off that path is invisible to it. '
-                'Eighteen methods (run-time matching, loops, prose docstrings) are declined by name in the evidence. conjunction_implies_nth is typed against its advertised contract as an inductive step driven by the count l (a last conjunct that is itself a conjunction must not be taken apart). ac_move_to_front, simplify_clause, merge_clauses and reduce_n_or_duplicates_at_front (recursion over run-time position lists) are not decided.',
+                'Eighteen methods (run-time matching, loops, prose docstrings) are declined by name in the evidence. conjunction_implies_nth is typed against its advertised contract as an inductive step driven by the count l (a last conjunct that is itself a conjunction must not be taken apart). ac_move_to_front, simplify_clause, merge_clauses and reduce_n_or_duplicates_at_front (recursion over run-time position lists) are not decided.'
+                ' The stage contracts of propag_neg / to_cnf / to_clauses / resolution (shared with C09) are composed: those functions return proofs with advertised conclusions too.',
         'note': 'Trusted: the docstring grammar and binding convention, the built-in primitive rules, spec/axioms.py, python ast; that the '
                 'replayed conclusion equals the static one is the ProofThunk assertion (C08).',
         'design_ref': 'DESIGN.md section 3, C10',
@@ -109,7 +113,8 @@ CHECKS = {
                 'InterpreterTransformer forwards each of the 24 interface methods (and both phase transitions) once, with the same '
                 'arguments, returning the forwarded value; the instantiation optimiser returns BasicInterpreter\'s value; ProofThunk '
                 'returns only after dynamic == static conclusion; each ProofExp primitive advertises the term BasicInterpreter computes; '
-                'sibling empty-map guards agree. Joint behaviour on concrete expressions is not observed. Interpreter.pattern interprets the operands of each constructor in the order of the stack slots the tracking interpreters check (walk-order, 8 arms); the tracking interpreters compare terms with ==, never by identity. Every interpreter class that refines a call through super() calls the same method with its own arguments (64 delegations); no interpreter class keeps class-level mutable state mutated through instances.',
+                'sibling empty-map guards agree. Joint behaviour on concrete expressions is not observed. Interpreter.pattern interprets the operands of each constructor in the order of the stack slots the tracking interpreters check (walk-order, 8 arms); the tracking interpreters compare terms with ==, never by identity. Every interpreter class that refines a call through super() calls the same method with its own arguments (64 delegations); no interpreter class keeps class-level mutable state mutated through instances.'
+                ' The Instantiate operand pairing and the memoiser\'s slot budget (shared with C02) are part of \'the serialising interpreter means the same\'.',
         'note': 'Trusted: python ast; the listed construction sites were confirmed by reading.',
         'design_ref': 'DESIGN.md section 3, C08',
     },
@@ -121,7 +126,8 @@ CHECKS = {
                 '(free occurrences only, shadowing at the own binder, deferred on metavariables and pending substitutions, distribution, '
                 'pending substitutions resolved at instantiation; Rust additionally the capture checks); the notation node substitutes '
                 'in its expansion and instantiates with one merged map over the untouched body. By induction over patterns this yields '
-                'the per-constructor laws for all inputs. The composition law as an equation over all maps is not evaluated.',
+                'the per-constructor laws for all inputs. The composition law as an equation over all maps is not evaluated.'
+                ' Instantiate.metavars() (shared with C12) decides which entries of delta are merged.',
         'note': 'Trusted: spec/substitution.py; well-formed heads of pending substitutions (C01 S2); python ast, rustc MIR.',
         'design_ref': 'DESIGN.md section 3, C11',
     },
@@ -131,7 +137,8 @@ CHECKS = {
         'text': 'Every dispatcher on concrete pattern constructors in pattern.py and the notation libraries (8 sites) expands a notation '
                 'node and re-dispatches; the notation node\'s evar_is_free, apply_esubst, apply_ssubst and __eq__ are the operation on the '
                 'expansion (non-delegating bodies are decided only through necessary conditions, else the run is analysis-broken); '
-                'simplify is body.instantiate(inst). Congruence at every nesting depth beyond these facts is not evaluated. A dispatcher must re-enter itself (or loop) on `x.simplify()`: expanding one level and falling through is a violation, since a notation may be defined as an application of another notation.',
+                'simplify is body.instantiate(inst). Congruence at every nesting depth beyond these facts is not evaluated. A dispatcher must re-enter itself (or loop) on `x.simplify()`: expanding one level and falling through is a violation, since a notation may be defined as an application of another notation.'
+                ' Instantiate.instantiate is ONE merged map over the untouched body (shared with C11); a function defined per loop iteration must not call itself by name.',
         'note': 'Trusted: python ast. __eq__/__hash__ incoherence is reported as advisory only.',
         'design_ref': 'DESIGN.md section 3, C12',
     },
@@ -166,7 +173,8 @@ CHECKS = {
                 'clause of completeness of the resolution stage: the nested saturation loop forms every pair (same growing '
                 'list in both loops, diagonal guard, resolvents rejoin the list) and no assignment in the inner loop rebinds the outer '
                 'loop element on a path that reads it again. The stage lemmas are schema-checked under C10. Equivalence of each normal '
-                'form, proof reconstruction and "declines only when contingent" are data-dependent and are NOT decided. (5) Stage contracts, as inductive steps: to_conj_form (12 returning paths), propag_neg (7) and to_cnf (6) return a form with proofs of both implications between the input and the form given that their recursive calls do (negation-flag flips followed, run-time matching transitivity decided on terms); build_proof_from_hint returns the resolvent with a proof of CONJ -> resolvent in each of the four emptiness cases given its parents do; the literal numbering of to_clauses is inverted by id_to_metavar. to_clauses is decided for left operands of 1 to 4 clauses / literals by unrolling its re-association loop in the syntax tree (bounded: longer operands run the same body more often and are not decided). These are the contracts clause (1) assumes of the stages; simplify_clause and merge_clauses stay assumptions. The documented schemas of the lemmas the stages call are checked here too (C10\'s lemma typing, 82 lemmas).',
+                'form, proof reconstruction and "declines only when contingent" are data-dependent and are NOT decided. (5) Stage contracts, as inductive steps: to_conj_form (12 returning paths), propag_neg (7) and to_cnf (6) return a form with proofs of both implications between the input and the form given that their recursive calls do (negation-flag flips followed, run-time matching transitivity decided on terms); build_proof_from_hint returns the resolvent with a proof of CONJ -> resolvent in each of the four emptiness cases given its parents do; the literal numbering of to_clauses is inverted by id_to_metavar. to_clauses is decided for left operands of 1 to 4 clauses / literals by unrolling its re-association loop in the syntax tree (bounded: longer operands run the same body more often and are not decided). These are the contracts clause (1) assumes of the stages; simplify_clause and merge_clauses stay assumptions. The documented schemas of the lemmas the stages call are checked here too (C10\'s lemma typing, 82 lemmas).'
+                ' trivial-clause: is_trivial_clause is a complementary-pair scan (the cardinality idiom only on sets). to_clauses helper loops and map-over-range loops are unrolled with the lengths the stage contract assumes; a stage that leaves the typed subset fails the run instead of being declined.',
         'note': 'Trusted: python ast; the stage contracts as documented in tautology.py. Four clauses; the decision-procedure property as a whole is out of reach of static analysis.',
         'design_ref': 'DESIGN.md section 3, C09',
     },
@@ -176,7 +184,8 @@ CHECKS = {
         'text': 'Two structural clauses of the compressed-proof decoder: the letter tables are exactly A..T->1..20 and U..Y->1..5 with '
                 'weights 20*5^i; mandatory hypotheses are numbered 1,2,.. from the insertion-ordered list of floating hypotheses '
                 '(database order), never from a set (hash-seed dependent) nor merely sorted. The numeric decoding of all step numbers, '
-                'Z placement and whitespace layouts are not decided. Labels registered from `text.split(sep)` with an explicit separator must filter empty tokens (the empty list `( )` is legal); where numbers past the label list are resolved (translate.exec_proof) every Z saves and remembers the top unconditionally and number n reloads slot n - len(labels) - 1 (shared with C16). A regular expression that cuts the proof into steps must repeat the high-digit class U-Y without bound before one A-T (read with re\'s parser); hash() / id() is never used as the identity of a term outside __hash__.',
+                'Z placement and whitespace layouts are not decided. Labels registered from `text.split(sep)` with an explicit separator must filter empty tokens (the empty list `( )` is legal); where numbers past the label list are resolved (translate.exec_proof) every Z saves and remembers the top unconditionally and number n reloads slot n - len(labels) - 1 (shared with C16). A regular expression that cuts the proof into steps must repeat the high-digit class U-Y without bound before one A-T (read with re\'s parser); hash() / id() is never used as the identity of a term outside __hash__.'
+                ' The hypothesis numbering is found in converter helpers and in comprehension form; the number->label table extended with a proof\'s labels is created per proof (label-table-fresh); a decoder written with zip over a place-value table needs a table that reaches 10^6.',
         'note': 'Trusted: python ast; _floating_patterns is appended in database order.',
         'design_ref': 'DESIGN.md section 3, C15',
     },
@@ -205,7 +214,8 @@ CHECKS = {
                 'numbers index saved entries as k - len(labels) - 1; the axiom pattern loaded is the one main() declares; the stack top '
                 'is asserted to prove the target before publication; Interpreter.pattern nets +1 on every arm. NOT decided: the '
                 'converter\'s images of terms, notations and axioms, nor acceptance of any database (run-time data); proofs using other '
-                'proof rules are outside the stated fragment (reported as advisory). The numbering of the target\'s mandatory hypotheses and the label-list tokens are checked with C15\'s rules (the replay resolves the letters through them). get_delta adds exactly one entry per metavariable label on every path; every Axiom / Lemma the converter builds takes its `metavars` from the statement\'s variables, never from the metavariables of the converted pattern (the assumption of the stack rule, checked at its 5 construction sites).',
+                'proof rules are outside the stated fragment (reported as advisory). The numbering of the target\'s mandatory hypotheses and the label-list tokens are checked with C15\'s rules (the replay resolves the letters through them). get_delta adds exactly one entry per metavariable label on every path; every Axiom / Lemma the converter builds takes its `metavars` from the statement\'s variables, never from the metavariables of the converted pattern (the assumption of the stack rule, checked at its 5 construction sites).'
+                ' Rules with antecedents unite their own metavariables with those of every antecedent (floats-from-statement/union), read through converter helpers.',
         'note': 'Trusted: tracker effects (decided under C04), prelude statements in the benchmark databases, assumption that the '
                 'mandatory floats of a non-prelude label are get_metavars_in_order(label) and its essentials are the antecedents.',
         'design_ref': 'DESIGN.md section 3, C16',
@@ -222,7 +232,8 @@ CHECKS = {
                 'hypotheses are generated from; the scan and the label set are complete before anything is emitted; declarations come '
                 'first and the lemma block last; floating hypotheses leave in one in-order pass over the insertion-ordered container; '
                 'set iterations in the slicer are triaged by name. Round-trip identity and re-verification of the compressed proof '
-                'are not decided. A `$d` over n variables is recorded as all n(n-1)/2 pairs (the loop headers are evaluated over four abstract variables); the parse transformer, which remembers declared variables, is created per parse and never at import time. Every node class reports the variables of all its term- or statement-valued children (no skipped kinds) - the slicer declares what get_metavariables reports; an optional field with a falsy inhabitant (proof: str | None) is never tested by truthiness in the printer / slicer / parser.',
+                'are not decided. A `$d` over n variables is recorded as all n(n-1)/2 pairs (the loop headers are evaluated over four abstract variables); the parse transformer, which remembers declared variables, is created per parse and never at import time. Every node class reports the variables of all its term- or statement-valued children (no skipped kinds) - the slicer declares what get_metavariables reports; an optional field with a falsy inhabitant (proof: str | None) is never tested by truthiness in the printer / slicer / parser.'
+                ' The constant and variable scans recurse into nested blocks; `$v` is emitted only when the variable set is non-empty (grammar `$v token+`); a slice written as one tuple display is read as the equivalent appends.',
         'note': 'Trusted: python ast; the grammar is read from the `syntax` constant of metamath/parser.py.',
         'design_ref': 'DESIGN.md section 3, C17',
     },
@@ -235,7 +246,8 @@ CHECKS = {
                 'Notation.print_instantiation hands every argument, rendered with the caller\'s options, in position and unfiltered to '
                 'that format string. '
                 'The pretty printer and the serializer override the same 24 methods, each pretty override prints one terminated step '
-                'whose word is the opcode written. Injectivity of rendering in general is not decided. Instantiate.instantiate rebuilds the argument map with all stored entries first in stored order and Notation.__call__ stores arguments by position (the renderer is positional); no interpreter wrapper tests the wrapped interpreter for a class that separates the binary serializer from the pretty printer. The serializer writes an instruction on every path of every call (the pretty printer prints a step for every call).',
+                'whose word is the opcode written. Injectivity of rendering in general is not decided. Instantiate.instantiate rebuilds the argument map with all stored entries first in stored order and Notation.__call__ stores arguments by position (the renderer is positional); no interpreter wrapper tests the wrapped interpreter for a class that separates the binary serializer from the pretty printer. The serializer writes an instruction on every path of every call (the pretty printer prints a step for every call).'
+                ' The memoisation choice does not depend on set iteration order (shared with C18, optimiser modules): binary and pretty files are written by separate processes.',
         'note': 'Trusted: python ast, str.format placeholder syntax. Known findings: equiv, sorted-exists, kore-exists.',
         'design_ref': 'DESIGN.md section 3, C19',
     },
@@ -248,7 +260,8 @@ CHECKS = {
                 'writers. ConvertionScope allocators are injective and stable (len(table) under a not-in guard, disjoint bases, tables '
                 'never shrink); each axiom is converted in a fresh scope cached under its own ordinal and substitutions are converted '
                 'in that scope by lookup. Commutation of conversion with substitution and checker acceptance are not decided (the K '
-                'modules cannot even be imported here; the analysis is purely syntactic). KSymbol.unwrap_kore_name is the exact inverse of the prefixing in aml_symbol (removeprefix / slice of the prefix length under a startswith guard); the rows of instantiate, load and the publishes (the only calls a K proof makes) are the C02 rows.',
+                'modules cannot even be imported here; the analysis is purely syntactic). KSymbol.unwrap_kore_name is the exact inverse of the prefixing in aml_symbol (removeprefix / slice of the prefix length under a startswith guard); the rows of instantiate, load and the publishes (the only calls a K proof makes) are the C02 rows.'
+                ' get_proof_hints examines every adjacent pair of trace entries (loop header evaluated over four abstract entries); the configuration is advanced only after the claim and the proof are registered, decided by event order through helper methods.',
         'note': 'Trusted: python ast.',
         'design_ref': 'DESIGN.md section 3, C20',
     },
